@@ -1,0 +1,42 @@
+// Add-only test shim (build tag verif): the prefix-coding stage of a block on
+// its own, so that an external harness can drive Writer.encodePrefix with
+// arbitrary symbol sequences and read the result back with Reader.decodePrefix.
+
+//go:build verif
+// +build verif
+
+package bzip2
+
+import (
+	"bytes"
+
+	"github.com/dsnet/compress/internal/errors"
+)
+
+// VerifEncodePrefix runs Writer.encodePrefix on a fresh Writer: syms are the
+// symbols of the MTF/RLE2 stage (0 = RUNA, 1 = RUNB, i+1 = MTF index i) for a
+// block that uses numSyms byte values; the end-of-block symbol is appended by
+// encodePrefix itself. The bits produced are padded with zeros to a byte.
+func VerifEncodePrefix(syms []uint16, numSyms int) (out []byte, err error) {
+	defer errors.Recover(&err)
+	var bb bytes.Buffer
+	zw := new(Writer)
+	zw.wr.Init(&bb)
+	zw.encodePrefix(append([]uint16(nil), syms...), numSyms)
+	zw.wr.WritePads(0)
+	if _, err := zw.wr.Flush(); err != nil {
+		return nil, err
+	}
+	return bb.Bytes(), nil
+}
+
+// VerifDecodePrefix runs Reader.decodePrefix on data for a block that uses
+// numSyms byte values; the symbols returned include the end-of-block symbol
+// if the decoder keeps it.
+func VerifDecodePrefix(data []byte, numSyms int) (syms []uint16, err error) {
+	defer errors.Recover(&err)
+	zr := new(Reader)
+	zr.level = 9 // the largest block size: decodePrefix bounds the number of symbols by it
+	zr.rd.Init(bytes.NewReader(data))
+	return append([]uint16(nil), zr.decodePrefix(numSyms)...), nil
+}
